@@ -233,6 +233,11 @@ def reader_side(ck, pid):
     if pid == "C09":
         # a long-lived reader: what exists now is what it returns, whatever it was asked before (cached open file)
         reader_common.read_cache_contract(ck, pyload.module("digital_rf_hdf5", symbolic=False))
+        # ... and its bounds are the first / last sample of the finalized files (a bound beyond them is a sample that was never written)
+        from checks import bounds_common
+        symrd = pyload.module("digital_rf_hdf5")
+        bounds_common.file_edges(ck, symrd, 3, "C09")
+        bounds_common.dir_bounds(ck, symrd, 3)
     mod = pyload.module("digital_rf_hdf5")
     src = open(mod.__file__).read()
     tree = ast.parse(src)
